@@ -12,7 +12,7 @@
    vr says which revision of the code is modelled; [code_variant] (= all six `fix:` commits of
    /repo/rapidproto in) is the one the correspondence check ties to the implementation. Theorems that
    need a repair state it as a hypothesis on vr and are instantiated at [code_variant] below. *)
-From CP Require Import DecodeTotal Extra RapidGen RapidGenProofs RapidGenSound.
+From CP Require Import DecodeTotal Extra RapidGen RapidGenProofs RapidGenSound RapidProg RapidProgProofs RapidProgEqb.
 Local Open Scope N_scope.
 
 (* termination: fuel depthLimit + 2 suffices for every schema (recursive ones included: recursion
@@ -191,3 +191,42 @@ Example gen_in_range_nonvacuous :
   exists m, gen code_variant demo_o sch_demo ann_demo 0 (lcg 1500 2) = Ok m /\
             N.of_nat (length (emit sch_demo false 0 m)) < two63 /\ (1 < length (emit sch_demo false 0 m))%nat.
 Proof. exact RapidGenSound.gen_in_range_demo. Qed.
+
+(* ---- translator tie (task T16, DESIGN 12.7): /repo/rapidproto/rapidproto.go is re-translated on every run into the language of
+   Model/RapidProg.v and compared, declaration by declaration, with [canon_rapidproto]. The canonical program INTERPRETED is the
+   generator model all theorems above are about: for every well-formed schema with fitting annotations (enums declare a value),
+   options (a FieldMapper answers map keys with map keys), message type of the schema, draw tape and fuel >= rp_fuel = 37 (three
+   Go calls per nesting level: setFields -> setFieldValue -> genAny -> setFields), MessageGenerator(x, options) followed by one draw
+   from the generator it returns is [gen] — the same message, or the same Err (abandoned draw) / Panic; never stuck, never out of fuel. *)
+Theorem rapidprog_correct : forall o sch ann,
+  wf sch = true -> ann_ok sch ann = true -> rp_enums_ok sch ann -> rp_keys_ok o ->
+  forall mid extra tape, (mid < length sch)%nat ->
+    rp_generate o sch ann canon_rapidproto (rp_fuel + extra) mid tape = Some (gen code_variant o sch ann mid tape).
+Proof. exact RapidProgProofs.rapidprog_correct. Qed.
+(* hence (the two premises follow from those of gen_in_range: RapidProgProofs.rapidprog_correct_std) what the translated-and-compared
+   code generates lies in the range of the generator model: every validity theorem above (gen_outputs_valid) applies to it *)
+Theorem rapidprog_in_range : forall o sch ann,
+  wf sch = true -> ann_ok sch ann = true -> NoDup (map a_name ann) -> enums_ok sch ann ->
+  fmap_gen_sound o -> fmap_typed o -> fmap_bytes_norm o ->
+  forall mid extra tape v, (mid < length sch)%nat ->
+    rp_generate o sch ann canon_rapidproto (rp_fuel + extra) mid tape = Some (Ok v) ->
+    N.of_nat (length (emit sch false mid v)) < two63 ->
+    rapid_in_range code_variant o sch ann mid v = true.
+Proof. exact RapidProgProofs.rapidprog_in_range. Qed.
+
+(* the comparison the driver makes (`RAPIDPROG <name> eqb`) is sound: a translated declaration the decidable equality accepts IS
+   the canonical one *)
+Theorem rdecl_eqb_sound : forall a b : rdecl, rdecl_eqb a b = true -> a = b.
+Proof. exact RapidProgEqb.rdecl_eqb_sound. Qed.
+
+(* non-vacuity: on the demo schema (recursion through lists and bool-keyed maps, oneof, enum, the four well-known types, Any with
+   accepts_interface and Any inside Any) with AnyTypeURLs, an interface hint, NoEmptyLists and the string mapper, the interpreter
+   on the canonical program yields the model's non-trivial message; and the fuel matters: with less it answers OutOfFuel *)
+Example rapidprog_nonvacuous :
+  rp_generate demo_o sch_demo ann_demo canon_rapidproto rp_fuel 0 (lcg 1500 2) = Some (gen code_variant demo_o sch_demo ann_demo 0 (lcg 1500 2)) /\
+  (exists m, gen code_variant demo_o sch_demo ann_demo 0 (lcg 1500 2) = Ok m /\ (1 < length (emit sch_demo false 0 m))%nat) /\
+  rp_generate demo_o sch_demo ann_demo canon_rapidproto 20 0 (lcg 1500 2) = Some OutOfFuel.
+Proof.
+  split; [vm_compute; reflexivity|]. split; [|vm_compute; reflexivity].
+  destruct RapidGenSound.gen_in_range_demo as (_ & _ & _ & _ & _ & _ & _ & m & Hm & _ & Hl). exists m. split; assumption.
+Qed.
